@@ -32,6 +32,8 @@ func checkC09(c *Ctx) {
 	}
 	// (g) the path of the diagnostic to the console
 	checkOnParseErrorForm(c, f, "C09.g")
+	checkRelevantReviewedForms(c, f, "C09.z", "a union-match primitive (the exhaustiveness check, the rule constructors and parsers, case lookup, the match emitter)",
+		primSet("exaustiveCheck", "New_UnionMatchRules_UCaseOnly", "New_UnionMatchRules_UCaseWD", "lookupCase", "utCases", "parseUnionMatchRule", "parseUnionMatchRules", "parseURules", "parseDefaultMatchRule", "isUnionMatchRules", "parseMatchRules", "umrToGoReturn", "umrToCase", "umpToCaseHeader"), 10)
 	c.expectNF(f, "C09.g", "psPanic", []string{"seq[tkzPanic(p0.tkz, p1)]"}, "psPanic hands the message on unchanged")
 	c.expectNF(f, "C09.g", "PanicNow", []string{"seq[tkzPanic(var:lastTkz, p0)]"}, "PanicNow hands the message on unchanged")
 	c.expectNF(f, "C09.g", "tkzPanic", []string{`seq[frt.Panicf2(<msg>, frt.Sprintf2(<str>, tkzToFPosInfo(p0).LineNum, tkzToFPosInfo(p0).ColNum), p1)]`}, "the position is prefixed, the message follows unchanged")
